@@ -345,3 +345,50 @@ def _computed(e: ast.expr) -> bool:
 
 def single_def_expr(res: FuncResult, name_node: ast.Name) -> Optional[ast.expr]:
     return None
+
+
+def expr_sources(res: FuncResult, e: ast.expr) -> Tok:
+    """sources of an expression = union of the recorded sources of the names it reads and calls it makes"""
+    out = set()
+    calls = {id(c.node): c for c in res.calls}
+    for n in ast.walk(e):
+        if isinstance(n, ast.Name) and id(n) in res.name_loads:
+            out |= res.name_loads[id(n)]
+        elif isinstance(n, ast.Call) and id(n) in calls:
+            out |= calls[id(n)].result
+    return frozenset(out)
+
+
+def call_tokens(t: Tok, needle: str) -> Set[str]:
+    return {x for x in t if x.startswith('CALL:') and needle in x}
+
+
+def name_def_ids(res: FuncResult, e: ast.expr):
+    if isinstance(e, ast.Name):
+        return res.load_defs.get(id(e), frozenset())
+    return frozenset()
+
+
+COMPLEMENT_FUNCS = {'setdiff1d'}
+
+
+def is_complement_of(e: ast.expr, universe_pred, removed_pred) -> Optional[bool]:
+    """recognise the repo's complement idioms: np.setdiff1d(U, x), U[U != x], U[~np.isin(U, x)], np.delete(U, i).
+    -> True (complement of something satisfying removed_pred within something satisfying universe_pred),
+       False (a recognised idiom with the wrong slots), None (unrecognised)"""
+    if isinstance(e, ast.Call):
+        nm = e.func.attr if isinstance(e.func, ast.Attribute) else (e.func.id if isinstance(e.func, ast.Name) else '')
+        if nm == 'setdiff1d' and len(e.args) >= 2:
+            return bool(universe_pred(e.args[0]) and removed_pred(e.args[1]))
+        if nm == 'delete' and len(e.args) >= 2:
+            return bool(universe_pred(e.args[0]) and removed_pred(e.args[1]))
+    if isinstance(e, ast.Subscript):
+        m = e.slice
+        if isinstance(m, ast.Compare) and len(m.ops) == 1 and isinstance(m.ops[0], ast.NotEq):
+            return bool(universe_pred(e.value) and universe_pred(m.left) and removed_pred(m.comparators[0]))
+        if isinstance(m, ast.UnaryOp) and isinstance(m.op, ast.Invert) and isinstance(m.operand, ast.Call):
+            c = m.operand
+            nm = c.func.attr if isinstance(c.func, ast.Attribute) else ''
+            if nm in ('isin', 'in1d') and len(c.args) >= 2:
+                return bool(universe_pred(e.value) and universe_pred(c.args[0]) and removed_pred(c.args[1]))
+    return None
